@@ -5,6 +5,7 @@ import (
 	"go/constant"
 	"go/token"
 	"go/types"
+	"strings"
 
 	"golang.org/x/tools/go/ssa"
 
@@ -20,9 +21,10 @@ type walkModel struct {
 	walk     *ssa.Function
 	chain    *ssa.Function // cloneHierarchy
 	clone    *ssa.Function
-	parentFn *ssa.Function // accessor returning .parent
-	extendM  *ssa.Function // method storing to .children outside init
-	lookup   *ssa.Function // recursive method returning *T with a string parameter
+	clones   []*ssa.Function // every single-node copy function: called by the chain clone (or by another of them) and allocating a node
+	parentFn *ssa.Function   // accessor returning .parent
+	extendM  *ssa.Function   // method storing to .children outside init
+	lookup   *ssa.Function   // recursive method returning *T with a string parameter
 	entries  []*ssa.Function
 }
 
@@ -48,22 +50,39 @@ func getWalk(c *core.Ctx) *walkModel {
 	if m.chain == nil {
 		core.Bail("walk %s does not return through a chain-cloning function", m.walk.Name())
 	}
-	// clone: the function called by chain that allocates a node
-	for _, ci := range core.Calls(m.chain) {
-		g := ci.Common().StaticCallee()
-		if g == nil || g.Blocks == nil || !core.InMod(g) {
-			continue
-		}
-		allocs := false
+	// clone: the functions called by chain (or by one another) that allocate a node
+	allocsNode := func(g *ssa.Function) bool {
 		for _, b := range g.Blocks {
 			for _, in := range b.Instrs {
 				if a, ok := in.(*ssa.Alloc); ok && a.Heap && cm.isNodePtr(a.Type()) {
-					allocs = true
+					return true
 				}
 			}
 		}
-		if allocs {
-			m.clone = g
+		return false
+	}
+	seenClone := map[*ssa.Function]bool{m.chain: true}
+	work := []*ssa.Function{m.chain}
+	for len(work) > 0 {
+		from := work[0]
+		work = work[1:]
+		for _, ci := range core.Calls(from) {
+			g := ci.Common().StaticCallee()
+			if g == nil || g.Blocks == nil || !core.InMod(g) || seenClone[g] {
+				continue
+			}
+			if allocsNode(g) && len(g.Params) >= 1 && cm.isNodePtr(g.Params[0].Type()) && g.Signature.Results().Len() == 1 && cm.isNodePtr(g.Signature.Results().At(0).Type()) {
+				seenClone[g] = true
+				m.clones = append(m.clones, g)
+				work = append(work, g)
+				if from == m.chain {
+					m.clone = g
+				}
+			} else if allocsNode(g) && from == m.chain {
+				m.clone = g
+				seenClone[g] = true
+				m.clones = append(m.clones, g)
+			}
 		}
 	}
 	// parent accessor
@@ -392,6 +411,51 @@ var ruleCloneChain = &core.Rule{ID: "R03.3", Min: 5,
 		if len(bodies) == 0 {
 			core.Bail("no allocation of a result node found in the chain clone or a clone function it calls")
 		}
+		// a copy function hands out a node it allocated itself, or the copy another copy function makes of the same
+		// node; the latter may drop the parameter map only when that map is empty
+		if len(m.clones) > 1 {
+			for _, cl := range m.clones {
+				for _, r := range core.Returns(cl) {
+					key := cl.Name() + ": hands out a fresh copy: " + returnOrdinal(r)
+					v := r.Results[0]
+					if al, isAl := v.(*ssa.Alloc); isAl && al.Heap && al.Parent() == cl {
+						s.OK(key, c.Pos(r.Pos()), "node allocated here")
+						continue
+					}
+					call, isCall := v.(*ssa.Call)
+					if !isCall || !m.isClone(call.Call.StaticCallee()) || call.Call.Args[0] != ssa.Value(cl.Params[0]) {
+						s.Bad(key, c.Pos(r.Pos()), "a copy function returns something other than a node it allocated or another copy of the same node")
+						continue
+					}
+					okPs := true
+					if len(cl.Params) > 1 {
+						ps := cl.Params[1]
+						passes := len(call.Call.Args) > 1 && call.Call.Args[1] == ssa.Value(ps)
+						empty := false
+						for _, de := range core.DominatingConds(call.Block()) {
+							cond, val := core.StripNot(de.Cond, de.Val)
+							bo, isBo := cond.(*ssa.BinOp)
+							if !isBo {
+								continue
+							}
+							if ln, isLen := bo.X.(*ssa.Call); isLen && core.IsBuiltin(&ln.Call, "len") && ln.Call.Args[0] == ssa.Value(ps) && core.IsConstInt(bo.Y, 0) {
+								if (bo.Op == token.EQL && val) || (bo.Op == token.NEQ && !val) || (bo.Op == token.GTR && !val) || (bo.Op == token.LEQ && val) {
+									empty = true
+								}
+							}
+							if bo.X == ssa.Value(ps) && core.IsNilConst(bo.Y) && ((bo.Op == token.EQL && val) || (bo.Op == token.NEQ && !val)) {
+								empty = true
+							}
+							if k, isK := core.ConstString(bo.Y); isK && k == "" && bo.X == ssa.Value(ps) && ((bo.Op == token.EQL && val) || (bo.Op == token.NEQ && !val)) {
+								empty = true
+							}
+						}
+						okPs = passes || empty
+					}
+					s.Check(okPs, key, c.Pos(r.Pos()), "copy of the same node by "+call.Call.StaticCallee().Name()+"; parameters passed on or empty", "the copy is delegated to a function that does not receive the parameter map although the map may hold parameters: the result loses its charset")
+				}
+			}
+		}
 		recv := f.Params[0]
 		var first *nodeCopy
 		for _, ci := range core.Calls(f) {
@@ -598,7 +662,31 @@ var ruleCloneChain = &core.Rule{ID: "R03.3", Min: 5,
 func checkCopyFields(c *core.Ctx, s *core.Sink, m *walkModel, bodies []*nodeCopy, lastPhi *ssa.Phi) {
 	// the fields of every fresh result node
 	st := m.tm.Type.Underlying().(*types.Struct)
-	for _, fn := range []*ssa.Function{m.clone, m.chain} {
+	// completeness: a fresh result node carries the type string, the aliases and the extension of the node it copies
+	for i, nc := range bodies {
+		if nc.alloc == nil {
+			continue
+		}
+		set := map[int]bool{}
+		for _, ref := range *nc.alloc.Referrers() {
+			if fa, ok := ref.(*ssa.FieldAddr); ok {
+				for _, r2 := range *fa.Referrers() {
+					if x, ok := r2.(*ssa.Store); ok && x.Addr == ssa.Value(fa) {
+						set[fa.Field] = true
+					}
+				}
+			}
+		}
+		var missing []string
+		for _, fld := range []int{m.tm.FMime, m.tm.FAliases, m.tm.FExt} {
+			if !set[fld] {
+				missing = append(missing, "."+st.Field(fld).Name())
+			}
+		}
+		key := fmt.Sprintf("%s: result node #%d carries type, aliases and extension", nc.fn.Name(), i+1)
+		s.Check(len(missing) == 0, key, c.Pos(nc.alloc.Pos()), "all three stored", "a result node is built without "+strings.Join(missing, ", ")+" of the node it stands for: Is(alias) / Extension() of the result differ from the registered format")
+	}
+	for _, fn := range append(append([]*ssa.Function{}, m.clones...), m.chain) {
 		if fn == nil {
 			continue
 		}
@@ -882,7 +970,7 @@ var ruleParams = &core.Rule{ID: "R02.2", Min: 5,
 		for _, nc := range bodies {
 			g := nc.fn
 			psOf := nc.ps
-			if g == m.clone && len(g.Params) > 1 {
+			if m.isClone(g) && len(g.Params) > 1 {
 				psOf = g.Params[1]
 			}
 			for _, ref := range *nc.alloc.Referrers() {
@@ -917,7 +1005,7 @@ var ruleParams = &core.Rule{ID: "R02.2", Min: 5,
 							// carried string, and only when that string is not empty
 							strCarrier := false
 							var carrier ssa.Value
-							if g == m.clone && len(g.Params) > 1 && core.IsString(g.Params[1].Type()) {
+							if m.isClone(g) && len(g.Params) > 1 && core.IsString(g.Params[1].Type()) {
 								carrier = g.Params[1]
 							} else if g == m.chain && len(g.Params) > 1 && core.IsString(g.Params[1].Type()) {
 								carrier = g.Params[1]
@@ -1563,10 +1651,23 @@ type nodeCopy struct {
 	fn    *ssa.Function
 }
 
+// isClone: g is one of the single-node copy functions.
+func (m *walkModel) isClone(g *ssa.Function) bool {
+	if g == nil {
+		return false
+	}
+	for _, cl := range m.clones {
+		if cl == g {
+			return true
+		}
+	}
+	return false
+}
+
 // copyOf recognises v as a fresh copy made inside the chain function.
 func (m *walkModel) copyOf(v ssa.Value) *nodeCopy {
-	if call, ok := v.(*ssa.Call); ok && m.clone != nil && call.Call.StaticCallee() == m.clone {
-		nc := &nodeCopy{val: v, src: call.Call.Args[0], fn: m.clone}
+	if call, ok := v.(*ssa.Call); ok && m.isClone(call.Call.StaticCallee()) {
+		nc := &nodeCopy{val: v, src: call.Call.Args[0], fn: call.Call.StaticCallee()}
 		if len(call.Call.Args) > 1 && !core.IsNilConst(call.Call.Args[1]) {
 			if k, isC := core.ConstString(call.Call.Args[1]); !isC || k != "" {
 				nc.ps = call.Call.Args[1]
@@ -1645,12 +1746,12 @@ func (m *walkModel) copyBodies() []*nodeCopy {
 			}
 		}
 	}
-	if m.clone != nil {
+	for _, cl := range m.clones {
 		var ps ssa.Value
-		if len(m.clone.Params) > 1 {
-			ps = m.clone.Params[1]
+		if len(cl.Params) > 1 {
+			ps = cl.Params[1]
 		}
-		add(m.clone, m.clone.Params[0], ps)
+		add(cl, cl.Params[0], ps)
 	}
 	add(m.chain, nil, nil)
 	return out
